@@ -352,6 +352,59 @@ var guardTable = []guardRow{
 	{"cluster.ClusterNode.rpcClients", "cluster.ClusterNode.rpcClientsMu", false, []string{"C09"}},
 }
 
+// AtomicMaps: the guarded fields of map type, with their lock class (for check-then-act atomicity).
+func AtomicMaps() map[string]string {
+	return map[string]string{
+		"cache.Manager.sharedCaches":      "cache.Manager.mu",
+		"cache.Transaction.writtenCaches": "cache.Transaction.mu",
+		"cluster.ShardManager.shardStore": "cluster.ShardManager.shardLock",
+		"cache.ItemCache.items":           "cache.ItemCache.itemsMu",
+		"cluster.ClusterNode.rpcClients":  "cluster.ClusterNode.rpcClientsMu",
+	}
+}
+
+// ------------------------------------------------------------------- ATOMIC
+//
+// Check-then-act on a guarded map: when a function looks a key up in one of the
+// maps of the guarded-by table and, later on the same path, stores into that map,
+// the guarding lock must not have been released in between. Otherwise two
+// goroutines can both miss and both publish — for the shared cache registry that
+// means a reader's cold cache replacing the cache a writer has just published and
+// locked (C09, C11), for the shard registry a shard opened twice (C12).
+func Atomic(w *load.World, ls *lockset.Result, c *core.Collector) {
+	propsOf := func(field string) []string {
+		for _, r := range guardTable {
+			if r.Field == field {
+				return r.Props
+			}
+		}
+		return []string{"C09"}
+	}
+	bad := map[string]lockset.Split{}
+	for _, s := range ls.Splits {
+		bad[s.Field+"@"+load.FnKey(s.Fn)] = s
+	}
+	n := 0
+	seen := map[string]bool{}
+	for _, a := range ls.Acts {
+		k := a.Field + "@" + load.FnKey(a.Fn)
+		if seen[k] {
+			continue
+		}
+		seen[k] = true
+		n++
+		if s, isBad := bad[k]; isBad {
+			c.Add("ATOMIC", "check-then-act:"+k, core.Violation, s.At, "the map "+a.Field+" is updated on the strength of a lookup made in an earlier critical section: its lock was released in between, so another goroutine can have registered the same key meanwhile and is overwritten", propsOf(a.Field)...)
+		} else {
+			c.Add("ATOMIC", "check-then-act:"+k, core.OK, a.At, "", propsOf(a.Field)...)
+		}
+	}
+	c.Count("check_then_act_sites", n)
+	if n < 3 {
+		c.Add("ATOMIC", "anchor:sites", core.Undecided, "", fmt.Sprintf("found %d lookup-then-update sites on guarded maps, expected at least 3", n), "C09", "C11", "C12")
+	}
+}
+
 func fieldOf(fa *ssa.FieldAddr) string {
 	return ssax.TypeName(fa.X.Type()) + "." + ssax.StructOf(fa.X.Type()).Field(fa.Field).Name()
 }
